@@ -111,11 +111,13 @@ def r_printer(ctx, rule="R6"):
     rc = require_func(ctx, "parser._reconstruct")
     n = bad = 0
     reported = set()
-    for cfg in printer.configs(ctx.tier):
-        label = "fmt=%s repeated=%s quoted=%s trailing=%s fieldsep=%r kvsep=%r ignore_escapes=%s" % (
-            cfg["fmt"], cfg["repeated keys"], cfg["quoted GFF2 values"], cfg["trailing semicolon"], cfg["field separator"], cfg["keyval separator"], cfg["_ignore"])
-        traces = printer.run(ctx, rc, cfg)
-        exp = printer.spec_tokens(cfg)
+    mappings = [None] + (printer.MAPPINGS_THOROUGH if ctx.tier == "thorough" else [])
+    for cfg, mp in [(c_, m_) for m_ in mappings for c_ in printer.configs(ctx.tier)]:
+        label = "fmt=%s repeated=%s quoted=%s trailing=%s fieldsep=%r kvsep=%r ignore_escapes=%s keep_order=%s mapping=%s" % (
+            cfg["fmt"], cfg["repeated keys"], cfg["quoted GFF2 values"], cfg["trailing semicolon"], cfg["field separator"], cfg["keyval separator"], cfg["_ignore"],
+            cfg.get("_keep_order"), mp or "default")
+        traces = printer.run(ctx, rc, cfg, mp)
+        exp = printer.spec_tokens(cfg, mp)
         for t in traces:
             n += 1
             problem = None
